@@ -203,6 +203,13 @@ class Upstream:
         if a[0] == "drop":
             self.log("drop", proto=proto, qname=p.qname if p else None)
             return
+        if a[0] == "close":
+            # TCP only: hang up without answering (a name server that does not serve TCP, a middlebox resetting the connection)
+            self.log("close", proto=proto, qname=p.qname if p else None)
+            closer = getattr(send, "close_connection", None)
+            if closer:
+                closer()
+            return
         if a[0] == "when":
             # ("when", predicate, bytes, max_wait): reply once predicate() holds (or after max_wait)
             pred, data, max_wait = a[1], q[:2] + a[2][2:], a[3]
@@ -280,6 +287,13 @@ class Upstream:
                             time.sleep(pause)
                             c.sendall(framed[cut:])
 
+                def close_connection(c=c):
+                    try:
+                        c.shutdown(socket.SHUT_RDWR)
+                    except OSError:
+                        pass
+
+                send.close_connection = close_connection
                 for a in actions:
                     self._do(a, q, p, send, "tcp")
         except OSError:
